@@ -583,6 +583,40 @@ Definition notify_or_indicate_subscribers (indicate : bool) (mtu_of : Z -> Z) (s
   flat_map (fun bc => send_single indicate force mtu_of s (fst bc) h v)
            (filter (fun bc => orb force (has_entry (snd bc) h)) s).
 
+(* Fan-out with value=None: every bearer's task reads the characteristic's current value for its
+   own bearer AFTER its subscription check; a read that raises (ATT error from the dynamic
+   read function or a permission check: [rv b = None]) ends that bearer's task only.  One
+   asyncio task per bearer, gathered with asyncio.wait: a task that fails or never completes
+   (confirmation that never comes) has no effect on the others. *)
+Definition send_single_dyn (indicate : bool) (mtu_of : Z -> Z) (s : subs) (rv : Z -> option (list Z)) (bearer h : Z) : list pdu :=
+  if subscribed (if indicate then 0x02 else 0x01) s bearer h
+  then match rv bearer with
+       | Some v => [(bearer, (if indicate then OP_INDICATION else OP_NOTIFICATION), h, truncate (mtu_of bearer) v)]
+       | None => []
+       end
+  else [].
+
+Definition notify_or_indicate_subscribers_dyn (indicate : bool) (mtu_of : Z -> Z) (s : subs) (h : Z)
+                                              (rv : Z -> option (list Z)) : list pdu :=
+  flat_map (fun bc => send_single_dyn indicate mtu_of s rv (fst bc) h)
+           (filter (fun bc => has_entry (snd bc) h) s).
+
+(* NOT the code: a sequential fan-out that lets the first failure leave the loop (what a
+   "simplification" to `for bearer in bearers: await ...` does); only for fan_out_sequential_refuted *)
+Fixpoint fan_out_sequential (indicate : bool) (mtu_of : Z -> Z) (s : subs) (h : Z) (rv : Z -> option (list Z))
+                            (bearers : list Z) : list pdu :=
+  match bearers with
+  | [] => []
+  | b :: bs =>
+      if subscribed (if indicate then 0x02 else 0x01) s b h
+      then match rv b with
+           | Some v => (b, (if indicate then OP_INDICATION else OP_NOTIFICATION), h, truncate (mtu_of b) v)
+                       :: fan_out_sequential indicate mtu_of s h rv bs
+           | None => []                                        (* the exception leaves the loop *)
+           end
+      else fan_out_sequential indicate mtu_of s h rv bs
+  end.
+
 (* Server.write_cccd: a 2-byte value is recorded for (bearer, characteristic) *)
 Fixpoint assoc_set {A} (k : Z) (v : A) (l : list (Z * A)) : list (Z * A) :=
   match l with
